@@ -214,7 +214,7 @@ K("C20", "h_core", "c20_eval::proofs::c20_node_roundtrip", tier="quick", mem_gb=
   bounds="one node of any written kind (Input / UnoOp / Op / TresOp), any of the 20+2+1 operators, operand indices: any value below 2^32 (larger indices are truncated by `as u32`: outside the claim)",
   units=["rln::circuit::iden3calc::storage::<impl From<&graph::Node> for proto::node::Node>", "rln::circuit::iden3calc::storage::<impl From<proto::Node> for graph::Node>",
          "From<&Operation> for proto::DuoOp", "From<proto::DuoOp> for Operation", "proto::DuoOp::try_from(i32)"])
-K("C03", "h_rln", "c02_c13::proofs_c03::c03_recover_logic", tier="thorough", mem_gb=12, timeout_s=2400,
+K("C03", "h_rln", "c02_c13::proofs_c03::c03_recover_logic", tier="thorough", mem_gb=24, timeout_s=2400,
   bounds="two 288-byte messages, arbitrary content; compute_id_secret replaced by a recording stub returning an arbitrary canonical secret (zero included) or an error; leaf codec by contract",
   units=[PUB + "recover_id_secret", "rln::protocol::deserialize_proof_values"])
 
